@@ -190,6 +190,6 @@ def run(repo, res):
     # ---- R5 the cache protocol itself, interpreted over edit histories on a modelled file system -------------------
     from .. import api_model
     depth = 5 if getattr(repo, 'tier', 'quick') == 'thorough' else 3
-    api_model.apply(res, api_model.cache_history_model(repo, depth), {'history': 'C09-R5', 'history-count': 'C09-R5'}, PROJECT, 0)
+    api_model.apply(res, api_model.cache_history_model(repo, depth), {'history': 'C09-R5', 'history-count': 'C09-R5', 'identity': 'C09-R3'}, PROJECT, 0)
     res.assumptions.extend(['a validity predicate that iterates/recurses over recorded modules is taken to be dependency aware',
                             'mtime granularity, deletions and shadowing are outside the property domain'])
